@@ -482,7 +482,7 @@ package openapi3
 //@  || typeof(x) == type *ParameterRef || typeof(x) == type *PathItem || typeof(x) == type *RequestBodyRef || typeof(x) == type *ResponseRef
 //@  || typeof(x) == type *SchemaRef || typeof(x) == type *SecuritySchemeRef
 //@ func readableType
-//@   requires referenceable(x)
+//@   requires @C20 referenceable(x)
 //@   modifies nothing
 //@   tag C20
 //@ extend func (*Loader).resolveComponent
